@@ -1,6 +1,7 @@
 package rules
 
 import (
+	"go/token"
 	"strings"
 
 	"golang.org/x/tools/go/ssa"
@@ -146,6 +147,12 @@ func checkUnitsUseOwnGranularity(c *core.Ctx) {
 						kind = p[1]
 					}
 				}
+				if kind == "" && strings.Contains(gran, "ldsGranularity") {
+					// the LDS amount has several spellings (helper, packet field, code object); it is
+					// enough that it is not one of the two register counts
+					st.Ob(true)
+					continue
+				}
 				if kind == "" {
 					st.Ob(false)
 					c.Undecided("R09.21", fn, in.Pos(), "units:amount", "amount of unitsOccupy not recognised: "+short(amount))
@@ -155,6 +162,203 @@ func checkUnitsUseOwnGranularity(c *core.Ctx) {
 				st.Ob(ok2)
 				if !ok2 {
 					c.ReportAt("R09.21", fn, in.Pos(), "granularity-of-another-resource", "unitsOccupy converts "+short(amount)+" with "+short(gran)+", not with "+kind)
+				}
+			}
+		}
+	}
+}
+
+// checkWGCountersStepByOne: the dispatcher's work-group counters are compared with NumWG, which
+// counts work-groups; each is reset to zero or moved by exactly one.
+func checkWGCountersStepByOne(c *core.Ctx, rule string) {
+	st := c.Rule(rule, "DispatcherImpl.numDispatchedWGs and numCompletedWGs count work-groups: every store is the constant zero or the field's own value plus one. They are compared with each other and with NumWG; advanced by another unit (wavefronts, dispatch locations), the kernel is reported complete while work-groups are still running, and what the application sees then depends on the host's pace", 4)
+	for _, fn := range c.SrcFuncs(dispPkg) {
+		for _, b := range fn.Blocks {
+			for _, in := range b.Instrs {
+				for _, fld := range []string{"DispatcherImpl.numDispatchedWGs", "DispatcherImpl.numCompletedWGs"} {
+					s, ok := storeToField(in, fld)
+					if !ok {
+						continue
+					}
+					c.MarkAnalysed(fn)
+					st.Instances++
+					good := false
+					if k, isC := core.ConstInt(s.Val); isC && k == 0 {
+						good = true
+					}
+					if bo, isB := s.Val.(*ssa.BinOp); isB && bo.Op == token.ADD {
+						x, y := bo.X, bo.Y
+						if _, isC := core.ConstInt(x); isC {
+							x, y = y, x
+						}
+						if k, isC := core.ConstInt(y); isC && k == 1 {
+							if ld, isL := x.(*ssa.UnOp); isL && ld.Op == token.MUL {
+								if f := core.FieldOfAddr(ld.X); f != nil && core.ShortFieldID(f) == fld {
+									good = true
+								}
+							}
+						}
+					}
+					st.Ob(good)
+					if !good {
+						c.ReportAt(rule, fn, in.Pos(), "counter-not-stepped-by-one:"+fld, fld+" is stored a value that is neither zero nor itself plus one")
+					}
+				}
+			}
+		}
+	}
+}
+
+// checkUniversalScan: a predicate of the form "no element fails the test" walks the whole list
+// (its loop bound is the list's own length) and leaves with false from the failing arm.
+func checkUniversalScan(c *core.Ctx, rule, text, rel, fname, listSub, testSub string) {
+	st := c.Rule(rule, text, 2)
+	fn := c.MustFunc(rule, rel, fname)
+	if fn == nil {
+		return
+	}
+	c.MarkAnalysed(fn)
+	prov := core.NewLocalProv(c)
+	// (1) a loop bounded by len(list) itself
+	st.Instances++
+	whole := false
+	for _, hdr := range fn.Blocks {
+		if !inCycle(hdr) || len(hdr.Succs) != 2 {
+			continue
+		}
+		iff, ok := hdr.Instrs[len(hdr.Instrs)-1].(*ssa.If)
+		if !ok {
+			continue
+		}
+		bo, ok := iff.Cond.(*ssa.BinOp)
+		if !ok || bo.Op != token.LSS {
+			continue
+		}
+		if call, ok := bo.Y.(*ssa.Call); ok && core.IsBuiltin(call, "len") && strings.Contains(prov.Of(call.Call.Args[0]), listSub) {
+			whole = true
+		}
+	}
+	st.Ob(whole)
+	if !whole {
+		c.ReportAt(rule, fn, fn.Pos(), "scan-not-over-whole-list", fname+" has no loop bounded by the length of "+listSub+" itself: some elements are never tested")
+	}
+	// (2) the failing arm leaves with false
+	for _, b := range fn.Blocks {
+		iff, ok := b.Instrs[len(b.Instrs)-1].(*ssa.If)
+		if !ok || !strings.Contains(prov.Of(iff.Cond), testSub) {
+			continue
+		}
+		st.Instances++
+		good := false
+		for _, s := range b.Succs {
+			if leavesWithFalse(b, s) {
+				good = true
+			}
+		}
+		st.Ob(good)
+		if !good {
+			c.ReportAt(rule, fn, iff.Cond.Pos(), "failing-element-does-not-decide", fname+": neither arm of the test on "+testSub+" leaves the function with false - a failing element can be forgotten by the time the walk ends")
+		}
+	}
+}
+
+// leavesWithFalse: from the edge pred->b, following unconditional jumps only, the function
+// returns the constant false.
+func leavesWithFalse(pred, b *ssa.BasicBlock) bool {
+	for steps := 0; steps < 8; steps++ {
+		last := b.Instrs[len(b.Instrs)-1]
+		switch t := last.(type) {
+		case *ssa.Return:
+			if len(t.Results) != 1 {
+				return false
+			}
+			v := t.Results[0]
+			if phi, ok := v.(*ssa.Phi); ok && phi.Block() == b {
+				for i, p := range b.Preds {
+					if p == pred {
+						v = phi.Edges[i]
+					}
+				}
+			}
+			k, ok := v.(*ssa.Const)
+			return ok && k.Value != nil && k.Value.String() == "false"
+		case *ssa.Jump:
+			pred, b = b, b.Succs[0]
+		default:
+			return false
+		}
+	}
+	return false
+}
+
+func blockReaches(from, to *ssa.BasicBlock) bool {
+	seen := map[*ssa.BasicBlock]bool{}
+	work := append([]*ssa.BasicBlock{}, from.Succs...)
+	for len(work) > 0 {
+		b := work[len(work)-1]
+		work = work[:len(work)-1]
+		if b == to {
+			return true
+		}
+		if seen[b] {
+			continue
+		}
+		seen[b] = true
+		work = append(work, b.Succs...)
+	}
+	return false
+}
+
+// R09.22: a loop that converts the temporary marks of the per-SIMD masks covers every SIMD.
+func checkMaskConversionCoversAllSIMDs(c *core.Ctx) {
+	st := c.Rule("R09.22", "every loop of the CU resource table that converts the status of vregMasks[i] (commit of a reservation, release of a temporary one) is bounded by the length of the table's own per-SIMD slice, not by a count derived from the work-group. Bounded by the number of wavefronts, a work-group with fewer wavefronts than SIMDs leaves to-reserve marks on the SIMDs behind: the next commit turns them into reserved registers nobody frees", 2)
+	prov := core.NewLocalProv(c)
+	for _, fn := range c.SrcFuncs(resPkg) {
+		for _, b := range fn.Blocks {
+			for _, in := range b.Instrs {
+				call, ok := in.(*ssa.Call)
+				if !ok {
+					continue
+				}
+				var recv ssa.Value
+				name := ""
+				if call.Call.IsInvoke() {
+					name, recv = call.Call.Method.Name(), call.Call.Value
+				} else if f := call.Call.StaticCallee(); f != nil && len(call.Call.Args) > 0 {
+					name, recv = f.Name(), call.Call.Args[0]
+				}
+				if name != "convertStatus" || !strings.Contains(prov.Of(recv), "vregMasks") || !inCycle(b) {
+					continue
+				}
+				c.MarkAnalysed(fn)
+				st.Instances++
+				good, any := true, false
+				for _, hdr := range fn.Blocks {
+					if len(hdr.Succs) != 2 || !inCycle(hdr) || !(hdr == b || (blockReaches(hdr, b) && blockReaches(b, hdr))) {
+						continue
+					}
+					iff, ok := hdr.Instrs[len(hdr.Instrs)-1].(*ssa.If)
+					if !ok {
+						continue
+					}
+					bo, ok := iff.Cond.(*ssa.BinOp)
+					if !ok || bo.Op != token.LSS {
+						continue
+					}
+					any = true
+					lc, isLen := bo.Y.(*ssa.Call)
+					if !isLen || !core.IsBuiltin(lc, "len") {
+						good = false
+						continue
+					}
+					p := prov.Of(lc.Call.Args[0])
+					if !strings.Contains(p, "recv.") {
+						good = false
+					}
+				}
+				st.Ob(good && any)
+				if !(good && any) {
+					c.ReportAt("R09.22", fn, in.Pos(), "simd-loop-bound", fn.Name()+" converts vregMasks[i] in a loop that is not bounded by the length of one of the table's own slices")
 				}
 			}
 		}
